@@ -284,8 +284,15 @@ class Engine {
     stats().inconclusive.push_back("witness " + key + " not satisfiable");
     return false;
   }
-  // Is cond satisfiable together with pc? (used for 'false => exists x' clauses)
-  z3::check_result sat(const Bool &cond) { return check(cond.e); }
+  // Is cond satisfiable together with pc?
+  bool sat(const Bool &cond) {
+    auto r = check(cond.e);
+    if (r == z3::unknown) {
+      stats().inconclusive.push_back("satisfiability query unknown/timeout");
+      throw AbortCase("sat unknown");
+    }
+    return r == z3::sat;
+  }
   void fail(const std::string &key, const std::string &kind, const std::string &detail) {
     // violation that is not a formula: wrong exception, wrong structure, crash ...; attach a model of pc
     z3::model m(ctx());
@@ -454,6 +461,14 @@ inline Bool gt(const Real &a, const Real &b) { return Bool(a.diffsign(b) > 0); }
 inline Bool ge(const Real &a, const Real &b) { return Bool(a.diffsign(b) >= 0); }
 inline Bool eq(const Real &a, const Real &b) { return Bool(a.diffnum(b) == 0); }
 inline Bool ne(const Real &a, const Real &b) { return Bool(a.diffnum(b) != 0); }
+// the positive square root of `square` as a fresh symbol constrained by its defining equation
+inline Real algebraic(const std::string &name, const Real &square) {
+  Real v = Real::var(name);
+  auto &E = Engine::get();
+  E.assume(eq(v * v, square));
+  E.assume(gt(v, Real(0)));
+  return v;
+}
 
 #else
 // =================================================================== concrete (replay) build
@@ -502,6 +517,7 @@ class Engine {
   }
   bool control(const std::string &, const Bool &) { return true; }
   bool witness(const std::string &, const Bool &) { return true; }
+  bool sat(const Bool &cond) { return cond.e; }
   void fail(const std::string &key, const std::string &, const std::string &) { stats().reproduced.push_back(key); }
 };
 inline Q parse_q(const std::string &s0) {
@@ -565,6 +581,10 @@ inline Bool gt(const Real &a, const Real &b) { return Bool(a.q() > b.q()); }
 inline Bool ge(const Real &a, const Real &b) { return Bool(a.q() >= b.q()); }
 inline Bool eq(const Real &a, const Real &b) { return Bool(a.q() == b.q()); }
 inline Bool ne(const Real &a, const Real &b) { return Bool(a.q() != b.q()); }
+inline Real algebraic(const std::string &name, const Real &) {
+  stats().notes.push_back("exact replay with the algebraic number " + name + " is not supported by this build");
+  throw AbortCase("algebraic number in concrete replay");
+}
 #endif
 
 #ifndef SYMT_STRICT
